@@ -132,6 +132,23 @@ class DivA(Atom):
         return f"(({self.lin}) // {self.m})"
 
 
+class FltDivA(Atom):
+    """floor(x / 2**k) with `/` the true division of two ints: the quotient is rounded to a double (53 significant bits) first"""
+    __slots__ = ("lin", "k", "key", "skey")
+
+    def __init__(self, lin: "Lin", k: int):
+        self.lin, self.k = lin, k
+        self.key = ("fltdiv", lin.key, k)
+        self.skey = repr(self.key)
+
+    def rng(self):
+        lo, hi = self.lin.rng()
+        return (None if lo is None else lo >> self.k), (None if hi is None else (hi >> self.k) + 1)
+
+    def __repr__(self):
+        return f"floor(float({self.lin}) / 2**{self.k})"
+
+
 class Fn(Atom):
     __slots__ = ("name", "args", "lo", "hi", "key", "skey")
 
@@ -227,7 +244,7 @@ class Lin:
                     out.append(a)
                 elif isinstance(a, Slice):
                     out.append(a.sym)
-                elif isinstance(a, (ModA, DivA)):
+                elif isinstance(a, (ModA, DivA, FltDivA)):
                     rec(a.lin)
                 elif isinstance(a, Fn):
                     for x in a.args:
@@ -240,7 +257,7 @@ class Lin:
         for a, _ in self.terms:
             if isinstance(a, Opaque):
                 return True
-            if isinstance(a, (ModA, DivA)) and a.lin.has_opaque():
+            if isinstance(a, (ModA, DivA, FltDivA)) and a.lin.has_opaque():
                 return True
             if isinstance(a, Fn) and any(x.has_opaque() for x in a.args):
                 return True
@@ -249,7 +266,7 @@ class Lin:
     def has_residual(self) -> bool:
         """True if an Opaque/Mod/Div atom occurs (form is exact but not fully simplified)"""
         for a, _ in self.terms:
-            if isinstance(a, (ModA, DivA, Opaque)):
+            if isinstance(a, (ModA, DivA, Opaque, FltDivA)):
                 return True
         return False
 
